@@ -11,7 +11,9 @@ Parts (DESIGN.md section 5, C18):
     thread; invocation log against mc/oracles/dispatch_ref.py.  Families:
     paths, filters, identity (shared function objects, callbacks that free /
     disable), ports, both (source + receive port; senders on two hosts),
-    permanent (responders that persist beyond CmdPeriod).
+    permanent (responders that persist beyond CmdPeriod), cmdperiod (user
+    actions of CmdPeriod that declare a responder permanent / free / disable
+    it; CmdPeriod.run and hard_run).
 (1b) responders whose function raises (one dispatcher).
 (1c) filter matrix        E1, mode 'rt': ONE responder - creation route
     (constructor, OscFunc.matching, dispatcher=, the oscfunc decorator, a
@@ -177,7 +179,8 @@ class ResponderSys:
     """params: {'variants': [[path, matching, src, recv_port, tmpl(, shared)],
                              ...],
                 'max': n, 'msgs': [[address, args, sender, via], ...],
-                'kill': bool, 'permanent': bool}
+                'kill': bool, 'permanent': bool, 'cpacts': [...],
+                'hard': bool}
     via 0 = the main interface, 1 = the second interface (PORT2).
     shared: the responder is created with the one function object that all
     `shared` responders of its dispatcher have in common (log entries of that
@@ -186,7 +189,11 @@ class ResponderSys:
     kill: the menu offers ['kill', i, j, how]: responder i gets a function that
     logs and then calls j.free() / j.disable() (at most one such responder).
     permanent: the menu offers ['permanent', i, bool] on live responders
-    (a permanent responder persists beyond CmdPeriod)."""
+    (a permanent responder persists beyond CmdPeriod).
+    cpacts: [[how, j], ...]: the menu offers ['cpact', k] (once each): a
+    user action is registered in CmdPeriod which, whenever CmdPeriod runs,
+    declares responder j permanent / frees it / disables it.
+    hard: the menu also offers ['hard_cmdp'] (CmdPeriod.hard_run)."""
 
     def __init__(self, params, dry=False):
         self.p = params
@@ -241,7 +248,12 @@ class ResponderSys:
             for i, r in enumerate(self.ref.rs):
                 if self.ref.live(i):
                     o.append(['permanent', i, not r.permanent])
+        done = {a['k'] for a in self.ref.cp_actions}
+        o += [['cpact', k] for k in range(len(self.p.get('cpacts', ())))
+              if k not in done]
         o.append(['cmdp'])
+        if self.p.get('hard'):
+            o.append(['hard_cmdp'])
         o += [['msg', k] for k in range(len(self.p['msgs']))]
         return o
 
@@ -292,11 +304,31 @@ class ResponderSys:
             dis, obj = self._guard(op, call)
             self.rs.append(obj)
             return dis
-        if name == 'cmdp':
+        if name in ('cmdp', 'hard_cmdp'):
             ref.cmd_period()
+            if ref.undecided:
+                self.tainted = True     # resulting state not decided
             if self.dry:
                 return []
-            return self._guard(op, self.env['sac'].CmdPeriod.run)[0]
+            cp = self.env['sac'].CmdPeriod
+            return self._guard(
+                op, cp.run if name == 'cmdp' else cp.hard_run)[0]
+        if name == 'cpact':
+            how, j = self.p['cpacts'][op[1]]
+            ref.add_cp_action(op[1], how, j)
+            if self.dry:
+                return []
+            rs = self.rs
+
+            def act():
+                if j < len(rs) and rs[j] is not None:
+                    if how == 'permanent':
+                        rs[j].permanent = True
+                    else:
+                        getattr(rs[j], how)()
+            act._c18cp = op[1]
+            return self._guard(
+                op, lambda: self.env['sac'].CmdPeriod.add(act))[0]
         i = op[1]
         if name == 'enable':
             ref.enable(i)
@@ -538,6 +570,8 @@ class ResponderSys:
             o = getattr(fn, '__self__', None)
             if id(o) in mine:
                 cp.append(mine[id(o)])
+            elif hasattr(fn, '_c18cp'):
+                cp.append(['act', fn._c18cp])
         en = [None if r is None else bool(r.enabled) for r in self.rs]
         px = sorted(mine[id(r)] for r in env['rsp'].OscFunc._all_func_proxies
                     if id(r) in mine)
@@ -2145,6 +2179,14 @@ RESP_PARAMS = {
         'max': 3,
         'msgs': [['/a', [1], A, 0], ['/a', [1], A, 1], ['/a', [1], B, 1],
                  ['/a', [2], B, 0], ['/a', [1], C, 1]]},
+    # cmdperiod: user actions of CmdPeriod that declare a responder
+    # permanent / free it / disable it before or after the responder's own
+    # CmdPeriod action; CmdPeriod.run and CmdPeriod.hard_run
+    'cmdperiod': {
+        'variants': [['/a', False, None, None, None]],
+        'max': 2, 'permanent': True, 'hard': True,
+        'cpacts': [['permanent', 0], ['free', 0], ['disable', 0]],
+        'msgs': [['/a', [1], A, 0]]},
     # permanent: responders that persist beyond CmdPeriod
     'permanent': {
         'variants': [['/a', False, None, None, None],
@@ -2154,7 +2196,7 @@ RESP_PARAMS = {
 }
 
 
-RESP_DEPTH = {'permanent': (6, 7)}       # (quick, thorough); default (4, 6)
+RESP_DEPTH = {'permanent': (6, 7), 'cmdperiod': (5, 6)}       # (quick, thorough); default (4, 6)
 
 
 def _timed(ctx, label, t0):
@@ -2200,8 +2242,15 @@ def main(ctx):
         'ranks agree; exact-vs-matching order is a don\'t-care',
         'a permanent responder persists beyond CmdPeriod (documented), '
         'whether it was enabled or disabled when declared permanent; an '
-        'action removed from a registry by another action during a run may '
-        'or may not run in that run unless it is demanded to run first; '
+        'action removed from a registry by another action during a run '
+        '(run and hard_run) must not run when the remover is demanded to '
+        'run before it, must run when it is demanded to run before the '
+        'remover, and may or may not run only when their order is not '
+        'demanded; a responder declared permanent (freed, disabled) by a '
+        'CmdPeriod action that was registered before the responder was '
+        'created / last enabled is not freed by that CmdPeriod; a CmdPeriod '
+        'action registered after that moment finds the responder freed '
+        '(what follows is not decided, not extended); '
         'StartUp.defer evaluates at once after StartUp.run, registers '
         'before; user functions with fewer than four parameters must still '
         'be invoked (spare arguments are documented to be discarded)',
